@@ -1898,6 +1898,7 @@ class CParser:
     # BNF: postfix_expression   : primary_expression postfix_suffix*
     #                           | '(' type_name ')' '{' initializer_list ','? '}'
     def _parse_postfix_expression(self) -> c_ast.Node:
+        expr = None
         result = self._try_parse_paren_type_name()
         if result is not None:
             typ, mark, lparen_tok = result
@@ -1908,11 +1909,14 @@ class CParser:
                 init = self._parse_initializer_list()
                 self._accept("COMMA")
                 self._expect("RBRACE")
-                return c_ast.CompoundLiteral(typ, init, self._tok_coord(lparen_tok))
+                # A compound literal is a postfix expression like any other:
+                # it can be subscripted, have members selected, etc.
+                expr = c_ast.CompoundLiteral(typ, init, self._tok_coord(lparen_tok))
             else:
                 self._reset(mark)
 
-        expr = self._parse_primary_expression()
+        if expr is None:
+            expr = self._parse_primary_expression()
         while True:
             if self._accept("LBRACKET"):
                 sub = self._parse_expression()
